@@ -39,6 +39,9 @@ func FQDN(domain string) string {
 // domains are simply converted to local-case using strings.ToLower, but the
 // error is also returned.
 func ForLookup(domain string) (string, error) {
+	// A-labels are case-insensitive but idna.ToUnicode recognizes the ACE
+	// prefix only in lower case, decode "XN--..." spellings too.
+	domain = LowerASCII(domain)
 	uDomain, err := idna.ToUnicode(domain)
 	if err != nil {
 		return strings.ToLower(domain), err
@@ -69,4 +72,26 @@ func Equal(domain1, domain2 string) bool {
 	uDomain1, _ := ForLookup(domain1)
 	uDomain2, _ := ForLookup(domain2)
 	return uDomain1 == uDomain2
+}
+
+// LowerASCII converts ASCII upper-case letters to lower-case and leaves
+// all other bytes untouched.
+func LowerASCII(s string) string {
+	hasUpper := false
+	for i := 0; i < len(s); i++ {
+		if s[i] >= 'A' && s[i] <= 'Z' {
+			hasUpper = true
+			break
+		}
+	}
+	if !hasUpper {
+		return s
+	}
+	b := []byte(s)
+	for i, ch := range b {
+		if ch >= 'A' && ch <= 'Z' {
+			b[i] = ch + ('a' - 'A')
+		}
+	}
+	return string(b)
 }
